@@ -123,13 +123,14 @@ func loadSchemaPaths() []schemaPath {
 		for _, top := range []string{"version", "name", "include", "services", "networks", "volumes", "secrets", "configs"} {
 			add("", []string{top})
 		}
+		add("", []string{"<document>"}) // the document node itself
 		walk("", map[string]any{"properties": map[string]any{"include": (doc["properties"].(map[string]any))["include"]}}, nil, 0, map[string]int{})
 		sort.Slice(schemaPaths, func(i, j int) bool { return schemaPaths[i].String() < schemaPaths[j].String() })
 	})
 	return schemaPaths
 }
 
-var nodeKinds = []string{"null", "bool", "int", "float", "string", "empty-list", "list-str", "list-map", "empty-map", "map"}
+var nodeKinds = []string{"null", "bool", "int", "float", "string", "empty-list", "list-str", "list-map", "empty-map", "map", "reset", "override-map", "override-list", "override-str"}
 
 func kindNode(k string) *Y {
 	switch k {
@@ -151,6 +152,18 @@ func kindNode(k string) *Y {
 		return Seq(Map().Set("k", Str("v")))
 	case "empty-map":
 		return Map()
+	case "reset":
+		return &Y{S: "null", Raw: true, Tag: "!reset"}
+	case "override-map":
+		m := Map().Set("k", Str("v"))
+		m.Tag = "!override"
+		return m
+	case "override-list":
+		l := StrSeq("a", "b")
+		l.Tag = "!override"
+		return l
+	case "override-str":
+		return &Y{S: "foo", Tag: "!override"}
 	}
 	return Map().Set("k", Str("v")).Set("n", Int(1))
 }
@@ -179,6 +192,13 @@ type c01cCase struct {
 // buildConfusion places node at path inside a minimal valid document.
 func buildConfusion(p schemaPath, node *Y) *Y {
 	doc := Map()
+	if p.Root == "" && len(p.Segs) == 1 && p.Segs[0] == "<document>" {
+		// the whole document is the confusing node (tags included)
+		if node.Kind == 1 {
+			node.Set("services", Map().Set("svc", Map().Set("image", Str("img"))))
+		}
+		return node
+	}
 	if p.Root == "" {
 		doc.Set("services", Map().Set("svc", Map().Set("image", Str("img"))))
 		setPath(doc, p.Segs, node)
